@@ -305,6 +305,12 @@ class SymVC:
 
     # ---- obligations ------------------------------------------------------------------------------
     def ensures(self, name, cond, extra_terms=()):
+        # "Cxx/clause": an obligation that belongs to property Cxx only (one exploration of a sampler step
+        # serves several properties)
+        if len(name) > 4 and name[0] == "C" and name[3] == "/":
+            if name[:3] != self.cdef.prop:
+                return
+            name = name[4:]
         self.c.oblige(f"{self.name_prefix}.{name}", cond, extra_terms=extra_terms, getvals=list(self.getvals))
 
     def ensures_forall(self, name, extents, fn):
@@ -744,6 +750,10 @@ class NatVC:
         self.failures.append({"obligation": f"{self.name_prefix}.{name}", "why": why, "inputs": dict(self.inputs)})
 
     def ensures(self, name, cond, extra_terms=()):
+        if len(name) > 4 and name[0] == "C" and name[3] == "/":
+            if name[:3] != self.cdef.prop:
+                return
+            name = name[4:]
         self.checked.append(name)
         try:
             ok = bool(cond)
